@@ -437,11 +437,16 @@ func (fc *funcContext) translateExpr(expr ast.Expr) *expression {
 					}
 					return fc.fixNumber(fc.formatExpr("%e %s %s", e.X, op, strconv.FormatUint(i, 10)), basic)
 				}
+				// A count of signed type is checked at run time: a negative one panics.
+				count := fc.formatExpr("%f", e.Y)
+				if ct, ok := fc.typeOf(e.Y).Underlying().(*types.Basic); !ok || !isUnsigned(ct) {
+					count = fc.formatExpr("$shiftCount(%f)", e.Y)
+				}
 				if e.Op == token.SHR && !isUnsigned(basic) {
-					return fc.fixNumber(fc.formatParenExpr("%e >> $min(%f, 31)", e.X, e.Y), basic)
+					return fc.fixNumber(fc.formatParenExpr("%e >> $min(%s, 31)", e.X, count), basic)
 				}
 				y := fc.newLocalVariable("y")
-				return fc.fixNumber(fc.formatExpr("(%s = %f, %s < 32 ? (%e %s %s) : 0)", y, e.Y, y, e.X, op, y), basic)
+				return fc.fixNumber(fc.formatExpr("(%s = %s, %s < 32 ? (%e %s %s) : 0)", y, count, y, e.X, op, y), basic)
 			case token.AND, token.OR:
 				if isUnsigned(basic) {
 					return fc.formatParenExpr("(%e %t %e) >>> 0", e.X, e.Op, e.Y)
